@@ -1,4 +1,5 @@
 import CoapVerif.Lemmas.StreamFeed
+import CoapVerif.Lemmas.StreamWs
 /-
 C05 — stream transports deliver the same messages however the byte stream is cut.
 
@@ -123,5 +124,96 @@ example : (feed 100 St.init [[0xdd], [0x00], [0x01], [0x00], [1,2,3,4,5,6,7,8,9,
 example : feed 8388858 St.init [[0xf0, 0x01], [0x00], [0x00, 0x00, 0x01]] = ([], .closed) := by decide
 /-- an undecodable frame (reserved TKL 15) is dropped, the stream goes on -/
 example : (feed 100 St.init [[0x0f, 0x01, 0x00], [0x01]]).1 = [⟨0, 1, 0, [], [], []⟩] := by decide
+
+/-! ## WebSocket sessions
+
+  S_ws = Coap.Spec.Stream.Ws.run      (handshake lines + RFC 6455 frames; Spec/StreamWs.lean)
+  M_ws = Coap.M.Ws.feed               (coap_ws_rd_http_header, coap_ws_read, WS branch of coap_read_session after the
+                                       eight `fix:` commits; Model/WsReader.lean)
+
+FULL STATEMENT, NOT PROVED (tied only by the differential runs I = M_ws = S_ws, incl. every 1-, 2- and 3-cut
+placement of the frame part of short streams):
+
+  theorem ws_reader_eq_spec (mode) (accept) (chunks : List Bytes) :
+      observation (Ws.feed mode accept {} chunks) = Ws.run (Ws.validator mode accept) mode chunks.flatten
+  and its corollary ws_reader_segmentation_invariant for all streams.
+
+What is missing is the invariant relating (http_hdr, rd_header, hdr_ofs, all_hdr_in, data_ofs, rx_data) to the
+position of S's parser for streams that contain line ends and frames.  Proved below: the handshake-line clause
+of the property for every segmentation of a stream whose first line has not ended (`_partial`: exactly the
+streams without LF), the one-step closing lemmas of M_ws in any state, and the closing clauses of S_ws. -/
+section Ws
+open Coap.M.Ws Coap.Spec.Stream.Ws
+
+/-- segmentation invariance on the domain "no line end received yet": any two ways of delivering the same
+bytes leave the reader in the same state — the bytes buffered, or the session closed once 159 have arrived
+("an over-long handshake line closes the session instead of being buffered") -/
+theorem ws_first_line_segmentation_invariant_partial (mode : Mode) (accept : Bytes) (chunks₁ chunks₂ : List Bytes)
+    (h : chunks₁.flatten = chunks₂.flatten) (hno : noLF chunks₁.flatten) :
+    Coap.M.Ws.feed mode accept {} chunks₁ = Coap.M.Ws.feed mode accept {} chunks₂ := by
+  have e : ({} : Coap.M.Ws.St) = hsState [] := rfl
+  have h0 : noLF ([] : Bytes) := fun _ hx => by simp at hx
+  rw [e, feed_noLF mode accept chunks₁ [] h0 hno (by decide),
+    feed_noLF mode accept chunks₂ [] h0 (h ▸ hno) (by decide), h]
+
+/-- … and on that domain M_ws agrees with S_ws: nothing delivered, closed exactly when S says so -/
+theorem ws_first_line_eq_spec_partial (mode : Mode) (accept : Bytes) (chunks : List Bytes) (hno : noLF chunks.flatten) :
+    (Coap.M.Ws.feed mode accept {} chunks).1 = (run (validator mode accept) mode chunks.flatten).msgs ∧
+    ((Coap.M.Ws.feed mode accept {} chunks).2.1 = Sess.closed ↔
+      (run (validator mode accept) mode chunks.flatten).closed = true) := by
+  have e : ({} : Coap.M.Ws.St) = hsState [] := rfl
+  have h0 : noLF ([] : Bytes) := fun _ hx => by simp at hx
+  rw [e, feed_noLF mode accept chunks [] h0 hno (by decide)]
+  generalize chunks.flatten = bs at hno ⊢
+  have hlf := lfIndex_none _ hno
+  by_cases hlt : ([] : Bytes).length + bs.length < httpCap - 1
+  · have : ¬ maxLine < bs.length := by
+      simp only [List.length_nil, httpCap, maxLine] at hlt ⊢; omega
+    simp only [if_pos hlt, run, handshake, hlf, if_neg this]
+    simp
+  · have : maxLine < bs.length := by
+      simp only [List.length_nil, httpCap, maxLine] at hlt ⊢; omega
+    simp only [if_neg hlt, run, handshake, hlf, if_pos this]
+    simp
+
+/-- M_ws, any state before the handshake is complete: with 159 bytes of a line buffered and no line end, the
+next call closes the session; it reads nothing more -/
+theorem ws_long_line_closes (mode : Mode) (accept : Bytes) (fuel : Nat) (st : Coap.M.Ws.St) (av : Bytes)
+    (hup : st.up = false) (hlen : httpCap - 1 ≤ st.httpHdr.length) :
+    readSession mode accept (fuel + 1) st av = ([], .closed, av) :=
+  readSession_long_line mode accept fuel st av hup hlen
+
+/-- S_ws: a handshake line longer than the limit closes the session, whether its end never comes … -/
+theorem ws_spec_long_line_closes {σ} (V : Validator σ) (mode : Mode) (bs : Bytes) (hlf : lfIndex bs = none)
+    (hlen : maxLine < bs.length) : run V mode bs = ⟨[], false, true⟩ := spec_long_line V mode bs hlf hlen
+
+/-- … or comes too late -/
+theorem ws_spec_late_line_end_closes {σ} (V : Validator σ) (mode : Mode) (bs : Bytes) (i : Nat)
+    (hlf : lfIndex bs = some i) (hlen : maxLine < i) : run V mode bs = ⟨[], false, true⟩ :=
+  spec_late_line_end V mode bs i hlf hlen
+
+/-- S_ws: a frame declaring more than the 1472-byte buffer closes the session; nothing of it is delivered -/
+theorem ws_spec_oversize_frame_closes (mode : Mode) (fuel : Nat) (b0 b1 : UInt8) (r : Bytes)
+    (hmask : ¬ (mode = .server ∧ ¬ b1.toNat / 128 = 1))
+    (hhdr : ¬ r.length < (if b1.toNat % 128 = 127 then 8 else if b1.toNat % 128 = 126 then 2 else 0) +
+        (if b1.toNat / 128 = 1 then 4 else 0))
+    (hop : b0.toNat % 16 = 2)
+    (hbig : maxFrame < (if (if b1.toNat % 128 = 127 then 8 else if b1.toNat % 128 = 126 then 2 else 0) = 0
+        then b1.toNat % 128 else be (r.take (if b1.toNat % 128 = 127 then 8 else if b1.toNat % 128 = 126 then 2 else 0)))) :
+    Coap.Spec.Stream.Ws.frames mode (fuel + 1) (b0 :: b1 :: r) = ([], true) :=
+  spec_oversize_frame_closes mode fuel b0 b1 r hmask hhdr hop hbig
+
+/-- non-vacuity: 16-bit length 1473, unmasked, as client -/
+example : Coap.Spec.Stream.Ws.frames .client 5 [0x82, 0x7e, 0x05, 0xc1, 0, 1] = ([], true) := by decide
+/-- three tiny frames in one read (the former "left in the header buffer" defect), then one byte per read -/
+example : (Coap.M.Ws.feed .client [] { up := true } [[0x82, 2, 0, 1, 0x82, 2, 0, 2, 0x82, 2, 0, 3]]).1 =
+    [⟨0, 1, 0, [], [], []⟩, ⟨0, 2, 0, [], [], []⟩, ⟨0, 3, 0, [], [], []⟩] := by decide
+example : (Coap.M.Ws.feed .client [] { up := true } [[0x82], [3], [1], [1], [0xaa]]).1 = [⟨0, 1, 0, [0xaa], [], []⟩] := by
+  decide
+/-- masked frame to the server side, payload cut in two (the former "payload in the caller's stack" defect) -/
+example : (Coap.M.Ws.feed .server [] { up := true } [[0x82, 0x83, 1, 2, 3, 4, 0], [3, 0xa9]]).1 =
+    [⟨0, 1, 0, [0xaa], [], []⟩] := by decide
+
+end Ws
 
 end Coap.C05
